@@ -9,7 +9,7 @@ use serde::{Deserialize, Serialize};
 use serde_json::json;
 use std::cell::Cell;
 
-const RULE: &str = "cases = (macro group, variant Some/None/Ok/Err, payload, second payload); every option::/result:: macro in every accepted argument form (inline closure, closure with pattern parameter, function path) is compared with the std method of the same name on the same value, the fallback/mapper call counter must equal std's (0 or 1), and with effectful subject / value-argument expressions the number of evaluations must equal the method call's (each exactly once) and, for the option:: / result:: macros, their order too (receiver before argument); try_!/try_opt! (with and without map_err) against `?`; min!/max!/min_by!/max_by!/min_by_key!/max_by_key! against std::cmp on keyed values with distinguishable identity (which argument is returned, incl. equal keys) and on primitives; non-trivial = the variant that triggers the fallback, boundary payloads, equal keys with different tags; distinct by the whole case";
+const RULE: &str = "cases = (macro group, variant Some/None/Ok/Err, payload, second payload); every option::/result:: macro in every accepted argument form (inline closure, closure with pattern parameter, function path) is compared with the std method of the same name on the same value, the fallback/mapper call counter must equal std's (0 or 1), and with effectful subject / value-argument expressions the number of evaluations must equal the method call's (each exactly once) and, for the option:: / result:: macros, their order too (receiver before argument); try_!/try_opt! (with and without map_err) against `?`; min!/max!/min_by!/max_by!/min_by_key!/max_by_key! against std::cmp on keyed values with distinguishable identity (which argument is returned, incl. equal keys) and on primitives and compound keys (Option<&[u32]>, &[u32], Option<&str>); non-trivial = the variant that triggers the fallback, boundary payloads, equal keys with different tags; distinct by the whole case";
 
 #[derive(Serialize, Deserialize, Debug, Clone, Hash)]
 struct Case {
@@ -333,6 +333,40 @@ fn minmax_keyed(a: i64, b: i64) -> Result<(), String> {
     Ok(())
 }
 
+/// keys of compound kinds: Option<&[u32]>, &[u8], Option<&str>, &str (const_cmp! dispatches on the key type)
+fn minmax_compound(a: i64, b: i64) -> Result<(), String> {
+    const SLICES: [Option<&[u32]>; 8] = [None, Some(&[]), Some(&[0]), Some(&[7, 1]), Some(&[7, 200_000]), Some(&[7]), Some(&[u32::MAX]), Some(&[0, 0])];
+    const STRS: [Option<&str>; 6] = [None, Some(""), Some("a"), Some("ab"), Some("b"), Some("a\0")];
+    #[derive(Debug, Clone, Copy)]
+    struct T {
+        tags: Option<&'static [u32]>,
+        name: Option<&'static str>,
+        tag: u8,
+    }
+    let (i, j) = ((a.unsigned_abs() % 8) as usize, (b.unsigned_abs() % 8) as usize);
+    let (l, r) = (T { tags: SLICES[i], name: STRS[i % 6], tag: 1 }, T { tags: SLICES[j], name: STRS[j % 6], tag: 2 });
+    macro_rules! which {
+        ($name:literal, $k:expr, $o:expr) => {{
+            let (k, o): (T, T) = ($k, $o);
+            ensure!(k.tag == o.tag, "{}(keys #{i}, #{j}): konst returned argument #{} std argument #{}", $name, k.tag, o.tag);
+        }};
+    }
+    which!("min_by_key!(Option<&[u32]> key)", min_by_key!(l, r, |x| x.tags), std::cmp::min_by_key(l, r, |x| x.tags));
+    which!("max_by_key!(Option<&[u32]> key)", max_by_key!(l, r, |x| x.tags), std::cmp::max_by_key(l, r, |x| x.tags));
+    which!("min_by!(const_cmp! on Option<&[u32]>)", min_by!(l, r, |x, y| konst::const_cmp!(x.tags, y.tags)), std::cmp::min_by(l, r, |x, y| x.tags.cmp(&y.tags)));
+    which!("max_by!(const_cmp! on Option<&[u32]>)", max_by!(l, r, |x, y| konst::const_cmp!(x.tags, y.tags)), std::cmp::max_by(l, r, |x, y| x.tags.cmp(&y.tags)));
+    which!("min_by_key!(Option<&str> key)", min_by_key!(l, r, |x| x.name), std::cmp::min_by_key(l, r, |x| x.name));
+    which!("max_by_key!(Option<&str> key)", max_by_key!(l, r, |x| x.name), std::cmp::max_by_key(l, r, |x| x.name));
+    let (x, y) = (SLICES[i], SLICES[j]);
+    ensure!(min!(x, y) == std::cmp::min(x, y) && max!(x, y) == std::cmp::max(x, y), "min!/max! on Option<&[u32]> {x:?},{y:?}: konst ({:?},{:?})", min!(x, y), max!(x, y));
+    if let (Some(x), Some(y)) = (x, y) {
+        ensure!(min!(x, y) == std::cmp::min(x, y) && max!(x, y) == std::cmp::max(x, y), "min!/max! on &[u32] {x:?},{y:?}");
+    }
+    let (x, y) = (STRS[i % 6], STRS[j % 6]);
+    ensure!(min!(x, y) == std::cmp::min(x, y) && max!(x, y) == std::cmp::max(x, y), "min!/max! on Option<&str> {x:?},{y:?}");
+    Ok(())
+}
+
 fn minmax_prim(a: i64, b: i64) -> Result<(), String> {
     macro_rules! prim {
         ($t:ty) => {{
@@ -365,7 +399,8 @@ fn run_case(c: &Case) -> Result<(), String> {
         1 => result_macros(if c.pos { Ok(c.a) } else { Err(c.a) }, c.b),
         2 => try_macros(c.pos, c.a, c.b),
         3 => minmax_keyed(c.a, c.b),
-        _ => minmax_prim(c.a, c.b),
+        4 => minmax_prim(c.a, c.b),
+        _ => minmax_compound(c.a, c.b),
     }
 }
 
@@ -380,7 +415,7 @@ fn eval(ctx: &mut Ctx, c: Case) {
             ctx.label("equal_keys_distinct_tags");
         }
         if nt {
-            ctx.nontrivial(["option", "result", "try", "minmax_keyed", "minmax_prim"][c.group as usize], &c, || json!(c));
+            ctx.nontrivial(["option", "result", "try", "minmax_keyed", "minmax_prim", "minmax_compound"][(c.group as usize).min(5)], &c, || json!(c));
         }
         run_case(&c)
     });
@@ -408,9 +443,14 @@ fn explore(ctx: &mut Ctx) {
             eval(ctx, Case { group: 3, pos: true, a, b });
         }
     }
-    ctx.exhaustive_part("every option::/result:: macro x every argument form x {Some,None}/{Ok,Err} x 14x14 boundary payload pairs; try_!/try_opt! (3 forms); min/max families over all pairs of 14 boundary keys and keys 0..=3, on keyed values with tags and on 11 primitive types");
+    for a in 0..8 {
+        for b in 0..8 {
+            eval(ctx, Case { group: 5, pos: true, a, b });
+        }
+    }
+    ctx.exhaustive_part("every option::/result:: macro x every argument form x {Some,None}/{Ok,Err} x 14x14 boundary payload pairs; try_!/try_opt! (3 forms); min/max families over all pairs of 14 boundary keys and keys 0..=3, on keyed values with tags, on 11 primitive types, and with compound keys (Option<&[u32]>, Option<&str>: all 8x8 pairs)");
     let n = ctx.by_tier(200_000, 3_000_000);
-    let strat = (0u8..5, any::<bool>(), any::<i64>(), prop_oneof![any::<i64>(), Just(0i64), Just(1i64)]);
+    let strat = (0u8..6, any::<bool>(), any::<i64>(), prop_oneof![any::<i64>(), Just(0i64), Just(1i64)]);
     ctx.prop("std_equiv_macros", n, strat, |ctx, &(group, pos, a, d)| {
         // half of the min/max cases get equal or adjacent keys
         let b = if group >= 3 && d.unsigned_abs() < 2 { a.wrapping_add(d) } else { d };
